@@ -3,6 +3,7 @@ package main
 // Trusted specifications of external functions (assumed contracts; every use is reported in the evidence).
 
 import (
+	"strings"
 	"fmt"
 	"os"
 	"go/token"
@@ -80,6 +81,35 @@ func init() {
 				}
 				ex.trustedUsed["sync.Pool.Get returns an object built by the pool's New function that nothing else references; recycled objects keep their reference structure (slice headers, pointers) and have arbitrary scalar contents"] = true
 				return rs
+			}
+		}
+		// a pool held in a struct field that is only ever assigned `&sync.Pool{New: f}` (checked over all stores to the field)
+		if pt := args[0].Term(); pt.Op == "select" {
+			root := storeRoot(pt.Args[0])
+			for root.Op == "ite" {
+				root = storeRoot(root.Args[2])
+			}
+			if root.Op == "var" && strings.HasPrefix(root.Name, "H:") {
+				name := strings.TrimPrefix(root.Name, "H:")
+				if i := strings.LastIndexByte(name, '@'); i >= 0 {
+					name = name[:i]
+				}
+				if i := strings.IndexByte(name, '#'); i >= 0 {
+					if j := strings.IndexByte(name[i:], '.'); j >= 0 {
+						name = name[:i] + name[i+j:]
+					}
+				}
+				if f := ex.ld.poolFieldNewFuncs()[name]; f != nil {
+					rs := ex.callStatic(fr, st, f, nil, nil, pos)
+					if len(rs) == 1 && len(rs[0].L) == 2 && rs[0].L[0].Op == "intconst" && rs[0].L[0].Name != "0" {
+						ct := ex.ld.tagType(rs[0].L[0])
+						if _, isPtr := ct.Underlying().(*types.Pointer); isPtr {
+							ex.havocScalars(st, scalar(ct, rs[0].L[1]), 0)
+						}
+					}
+					ex.trustedUsed["sync.Pool.Get returns an object built by the pool's New function that nothing else references; recycled objects keep their reference structure (slice headers, pointers) and have arbitrary scalar contents; the pool in field "+name+" is the one every assignment to that field in the repository builds (checked)"] = true
+					return rs
+				}
 			}
 		}
 		// unknown New function: an exclusively owned object of unknown dynamic type
